@@ -198,7 +198,8 @@ def run_case(case, acc, order):
         if case.get('n_spikes'):
             # beyond one 50 000-spike batch of get_depths
             spec.update(n_spikes=case['n_spikes'], spike_templates=None, spike_clusters='same')
-        res = ac.run_convert(spec=spec, label=label, factor=f, twice=bool(case.get('twice')))
+        res = ac.run_convert(spec=spec, label=label, factor=f, twice=bool(case.get('twice')),
+                             stale_out=bool(int(spec.get('fill', 0) + len(label) + int(f * 2)) % 2))
         if res.get('truth') is not None and res['truth']['pc_features'] is not None and \
                 res['truth']['pc_features'].shape[0] == spec['n_spikes']:
             res['src_files']['__pc_features__'] = res['truth']['pc_features']
